@@ -35,9 +35,21 @@ ASSUMPTIONS = [
 EXPECTED_PROBES = ["F1", "F2", "F3", "F7", "timeout_fired", "pool_map_path", "prefetch_partial"]
 
 PLAN = {
-    "quick": {"workloads": 64, "variants": 200, "wall_budget": 35.0, "min_variants": 12, "wall_limit": 1200.0, "per_job_limit": 600.0},
-    "thorough": {"workloads": 480, "variants": 1500, "wall_budget": 240.0, "min_variants": 40, "wall_limit": 6 * 3600.0, "per_job_limit": 1800.0},
+    "quick": {"workloads": 64, "variants": 200, "wall_budget": 150.0, "min_variants": 12, "wall_limit": 1800.0, "per_job_limit": 900.0},
+    "thorough": {"workloads": 480, "variants": 1500, "wall_budget": 900.0, "min_variants": 40, "wall_limit": 8 * 3600.0, "per_job_limit": 3000.0},
 }
+# runs per workload by kind (measured cost per run on this machine: kk_cnls 10 ms, zhit 63, fit 110, bht 155,
+# lm 437, mrq 550, kk_ext 615, kk_de 662): about 30 s of work per workload in the quick tier
+VARIANTS = {"fit": 250, "zhit": 400, "kk_cnls": 800, "bht": 200, "lm": 70, "mrq": 55, "kk_ext": 50, "kk_de": 45}
+
+
+def variants_for(wl, tier):
+    n = VARIANTS.get(wl.get("kind"), 100)
+    return n if tier == "quick" else n * 6
+
+
+def workload_meta(wl):
+    return {"kind": wl.get("kind")}
 
 KIND_WEIGHTS = {
     "quick": [("fit", 34), ("zhit", 32), ("kk_ext", 9), ("kk_cnls", 12), ("bht", 5), ("mrq", 3), ("kk_de", 2), ("lm", 3)],
